@@ -140,24 +140,20 @@ Theorem C17_kill_without_client_harmless : forall b s s' o,
 Proof. exact ctl_second_kill_harmless. Qed.
 Print Assumptions C17_kill_without_client_harmless.
 
-(* what remains (recorded, C17-e): Kill closes the client under the start-up poll of Launch *)
-Definition C17_no_crash_ctl_statement : Prop := forall b l,
-  has_crash (snd (crun b cinit l)) = false.
-
-Theorem C17_no_crash_ctl_refuted : ~ C17_no_crash_ctl_statement.
-Proof.
-  intro H. specialize (H nbeh [ALaunch; ADialOk; APollTick; AKill; APollTick]).
-  rewrite ctl_crash_kill_during_poll in H. discriminate H.
-Qed.
-Print Assumptions C17_no_crash_ctl_refuted.
-
-Theorem C17_no_crash_ctl_partial : forall b l,
-  (forall l1 l2, l = l1 ++ AKill :: l2 -> kill_safe (fst (crun b cinit l1))) ->
+(* full statement (repairs of C17-e/f): no step of a controllable task's life crashes the executor *)
+Theorem C17_no_crash_ctl : forall b l,
   has_crash (snd (crun b cinit l)) = false /\ c_crashed (fst (crun b cinit l)) = false.
-Proof. exact ctl_no_crash_partial. Qed.
-Print Assumptions C17_no_crash_ctl_partial.
+Proof. intros b l. exact (ctl_no_crash b l cinit eq_refl). Qed.
+Print Assumptions C17_no_crash_ctl.
 
-(* and (recorded, C17-j): a KILL before the dial returned is refused — the task goes on starting *)
+(* a device in a wrong state at start-up: TASK_FAILED, device and everything it forked gone (C17-k) *)
+Theorem C17_wrong_start_leaves_nothing : forall b s s' o,
+  cstep b s APollBad = (s', o) -> statuses o = [FAILED] ->
+  c_gc s' = false /\ is_run (c_proc s') = false /\ c_phase s' = CEnd /\ sigs o = [KILL9; KILL9].
+Proof. exact ctl_wrong_start_leaves_nothing. Qed.
+Print Assumptions C17_wrong_start_leaves_nothing.
+
+(* what remains (recorded, C17-j): a KILL before the dial returned is refused — the task goes on starting *)
 Theorem C17_kill_before_dial_refused :
   let '(s, t) := crun nbeh cinit [ALaunch; AKill] in
   t = [] /\ c_crashed s = false /\ c_active s = false /\ is_run (c_proc s) = true.
@@ -186,6 +182,8 @@ Example C17_nonvacuous :
   existsb child_live (b_children (fst (brun fkbeh false binit
      [ALaunch; ATimer; AReq RStart; AExit 0; AReap 0; AReq RStop]))) = false /\
   c_gc (fst (crun fbeh cinit [ALaunch; ADialOk; APollReady; AKill; AKillStep; AKillStep; AKillStep])) = false /\
+  (let '(s, t) := crun nbeh cinit [ALaunch; ADialOk; APollTick; AKill; APollTick; AReap 0; AKillStep] in
+   statuses t = [KILLED] /\ c_kpc s = KFin) /\
   (* its normal life *)
   statuses (snd (brun nbeh false binit
      [ALaunch; ATimer; AReq RConf; AReq RStart; AReq RStop; AReap 0; AReq RReset; AKill])) = [RUNNING; FINISHED].
